@@ -392,7 +392,21 @@ fn rand_elem(r: &mut Rng) -> T { let a = elem_alphabet(); a[r.below(a.len())].cl
 /// A list argument in one of several presentations; returns (setup goals, term).
 fn rand_list_arg(r: &mut Rng, tag: &str, allow_open: bool) -> (Vec<G>, T) {
     let n = r.range(0, 4);
-    let elems: Vec<T> = (0..n).map(|_| rand_elem(r)).collect();
+    let mut elems: Vec<T> = (0..n).map(|_| rand_elem(r)).collect();
+    // now and then an element is a variable that is bound (to a list, to [], to an atom) before the call
+    let mut pre_elem: Vec<G> = vec![];
+    if n > 0 && r.chance(1, 4) {
+        let k = r.below(n);
+        let x = v(&format!("$El{}", tag));
+        pre_elem.push(G::Unify(x.clone(), [list(vec![atom("x"), atom("y")]), list(vec![]), atom("w"), list(vec![list(vec![])])][r.below(4)].clone()));
+        elems[k] = x;
+    }
+    let (mut pre, t) = rand_list_arg_inner(r, tag, allow_open, elems);
+    pre_elem.append(&mut pre);
+    (pre_elem, t)
+}
+
+fn rand_list_arg_inner(r: &mut Rng, tag: &str, allow_open: bool, elems: Vec<T>) -> (Vec<G>, T) {
     match r.below(6) {
         0 | 1 => (vec![], list(elems)),
         2 => { let x = v(&format!("$L{}", tag)); (vec![G::Unify(x.clone(), list(elems))], x) }
@@ -443,6 +457,17 @@ impl ListBips {
                         en.push(bcase(rule1(vec![v("$O")], vec![G::Append(vec![a.clone(), list(vec![b.clone()]), c.clone(), v("$O")])]), 1, None, true, "append(e1, [e2], e3, Out)"));
                     } } }
                 }
+                // an element of an input list that is a variable bound to a list, to [] or to an atom:
+                // it is resolved, and it stays one element
+                for b in small.iter() {
+                    if matches!(b, T::Var(..) | T::Anon) { continue; }
+                    en.push(bcase(rule1(vec![v("$O")], vec![G::Unify(v("$E"), b.clone()), G::Append(vec![list(vec![atom("a"), v("$E")]), list(vec![atom("c")]), v("$O")])]), 1, None, true, "$E = e, append([a, $E], [c], Out)"));
+                    en.push(bcase(rule1(vec![v("$O")], vec![G::Unify(v("$E"), b.clone()), G::Append(vec![list(vec![v("$E")]), v("$O")])]), 1, None, true, "$E = e, append([$E], Out)"));
+                    en.push(bcase(rule1(vec![v("$O")], vec![G::Unify(v("$E"), b.clone()), G::Append(vec![v("$E"), list(vec![v("$E"), atom("c")]), v("$O")])]), 1, None, true, "$E = e, append($E, [$E, c], Out)"));
+                    if which == ListProp::C15 {
+                        en.push(bcase(rule1(vec![v("$O")], vec![G::Unify(v("$E"), b.clone()), G::Include(T::Anon, list(vec![atom("a"), v("$E")]), v("$O"))]), 1, None, true, "$E = e, include($_, [a, $E], Out)"));
+                    }
+                }
                 // Out already a partial list (open or closed pattern) of every prefix length 0-3
                 for a in small.iter().step_by(2) { for b in small.iter().step_by(3) {
                     let ins = vec![a.clone(), list(vec![b.clone()]), atom("c")];
@@ -488,6 +513,12 @@ impl ListBips {
                     let mut b3 = pre.clone(); b3.push(G::Unify(v("$J"), func("join", vec![mk_list(vec![atom("e")], Some(v("$T2")))])));
                     en.push(bcase(rule1(vec![v("$J")], b3), 1, None, true, "join over a list with a bound tail variable"));
                 } }
+                // the pattern of functor() reaching it through a bound variable
+                for (name, pat) in [("noun", "noun*"), ("noun_phrase", "noun*"), ("verb", "noun*"), ("noun", "noun"), ("noun", "n*"), ("symptom", "symp*")] {
+                    let t = cplx(name, vec![T::Int(1), T::Int(2)]);
+                    en.push(bcase(rule1(vec![v("$A")], vec![G::Unify(v("$P"), atom(pat)), G::Functor(vec![t.clone(), v("$P"), v("$A")])]), 1, None, true, "$P = pattern, functor(T, $P, A)"));
+                    en.push(bcase(rule1(vec![v("$A")], vec![G::Unify(v("$Q"), atom(pat)), G::Unify(v("$P"), v("$Q")), G::Functor(vec![t.clone(), v("$P")]), G::Unify(v("$A"), atom("yes"))]), 1, None, true, "pattern through a variable chain, functor(T, $P)"));
+                }
                 for ar in 0..5usize {
                     for name in ["noun", "noun_phrase", "n", "verb"] {
                         let t = cplx(name, (0..ar).map(|i| T::Int(i as i64)).collect());
